@@ -116,6 +116,12 @@ class PbnParser(Parser):
         :param fp: Input stream in a PBN style.
         :return: Dict of a board content (yield).
         """
+        # Nothing of a previously parsed stream belongs to this stream.
+        self._in_comment = False
+        self.tag_pair_buffer = list()
+        self.comment_list = list()
+        self.comment_buffer = list()
+
         # line is maximally 255 characters in protocol PBN ver2.1
         for line in fp:
             # Check a semi-empty line, which is the first line of a new
